@@ -259,6 +259,7 @@ func cmdReplay(args []string) {
 	out := fs.String("out", "replay.ndjson", "output ndjson")
 	tr := fs.Int("tr", 1, "trace id")
 	stabilize := fs.Int("stabilize", 0, "append fault-free rounds")
+	settle := fs.Int("settle", 0, "append this many calm (fault-free, logged) driver steps so that latent damage surfaces")
 	_ = fs.Parse(args)
 	b, err := os.ReadFile(*sched)
 	if err != nil {
@@ -306,6 +307,13 @@ func cmdReplay(args []string) {
 				fmt.Fprintf(os.Stderr, "skipped step %+v\n", s)
 			}
 		}
+	}
+	if *settle > 0 {
+		d := NewDriver(c, rand.New(rand.NewSource(1)), profiles["base"])
+		c.rtoDraw = func(id uint64, et int) int { return et + int(id-1)%et }
+		p := calm
+		p.Restart = 10
+		d.with(p, *settle)
 	}
 	if *stabilize > 0 {
 		d := NewDriver(c, rand.New(rand.NewSource(1)), profiles["base"])
